@@ -70,19 +70,55 @@ Theorem C06_parse_errors_status :
 Proof. exact parse_errors_status. Qed.
 Print Assumptions C06_parse_errors_status.
 
-(* 3. mandated_headers ([headers_ok], Model/ServerSpec.v): 201 carries Location and
-   Docker-Content-Digest; 202 of an upload and 204 carry Location and Range "0-N"; 307 carries
-   Location; 200 for content carries Content-Length equal to the size the backend's descriptor
-   promised (and equal to the body when the reader delivers what it promised) and
-   Docker-Content-Digest unless the option omits it; 206 carries Content-Range
-   "bytes S-E/SIZE" with 0 <= S <= E+1 <= SIZE and Content-Length E+1-S; a marshalled document
-   carries Content-Length equal to its length. *)
+(* 3. mandated_headers ([headers_ok], Model/ServerSpec.v): 201 carries Docker-Content-Digest equal
+   to the digest of the descriptor the backend returned for what was created, and a Location
+   that is the place Options.LocationsForDescriptor named or else /v2/REPO/blobs/DIGEST resp.
+   /v2/REPO/manifests/DIGEST of what was created; 202 of an upload and 204 carry the Location
+   /v2/REPO/blobs/uploads/base64url(ID) for the repository the upload was opened in and the ID
+   its writer reported, and Range "0-N" where N+1 is the size the writer reported last in this
+   exchange ("0-0" for size 0 and for an upload just opened); 307 carries Location; 200 for
+   content carries Content-Length equal to the size the backend's descriptor promised (and equal
+   to the body when the reader delivers what it promised) and a Docker-Content-Digest that is
+   the descriptor's digest or the digest asked for, absent only when the option omits it; 206
+   carries Content-Range "bytes S-E/SIZE" with 0 <= S <= E+1 <= SIZE, Content-Length E+1-S and
+   Docker-Content-Digest; a marshalled document carries Content-Length equal to its length. *)
 Theorem C06_mandated_headers :
   forall linked digest_of subject_of enc redirect B (bstep : backend B) o b req,
     let '(_, tr, r) := handle linked digest_of subject_of enc redirect B bstep o b req in
     in_scope o tr -> forall resp, r = Ok resp -> headers_ok o tr resp = true.
 Proof. exact mandated_headers. Qed.
 Print Assumptions C06_mandated_headers.
+
+(* The header clauses constrain the values, not only their presence: after a PATCH whose writer
+   reports 11 bytes and the ID "id1" in repository foo, Range 0-10 with the Location of that
+   upload is accepted and Range 0-0, Range 0-11, the Location of another ID or of another
+   repository are refused. *)
+Theorem C06_upload_headers_discriminate :
+  let tr := [ECall (PushBlobChunkedResume (s "foo") (s "id1") 0 0) (Ok (VWriter 1%N));
+             ECall (WWrite 1%N (s "hello world")) (Ok (VN 11)); ECall (WClose 1%N) (Ok VUnit);
+             ECall (WID 1%N) (Ok (VStr (s "id1"))); ECall (WSize 1%N) (Ok (VN 11))] in
+  let resp r l := mkresp 202 [(H_location, l); (H_range, r)] [] None in
+  headers_ok ex_opts tr (resp (s "0-10") (s "/v2/foo/blobs/uploads/aWQx")) = true
+  /\ headers_ok ex_opts tr (resp (s "0-0") (s "/v2/foo/blobs/uploads/aWQx")) = false
+  /\ headers_ok ex_opts tr (resp (s "0-11") (s "/v2/foo/blobs/uploads/aWQx")) = false
+  /\ headers_ok ex_opts tr (resp (s "0-10") (s "/v2/foo/blobs/uploads/b3RoZXI")) = false
+  /\ headers_ok ex_opts tr (resp (s "0-10") (s "/v2/bar/blobs/uploads/aWQx")) = false.
+Proof. exact upload_headers_discriminate. Qed.
+Print Assumptions C06_upload_headers_discriminate.
+
+(* Likewise a 201 after PushManifest: only the digest the backend returned and the manifest URL
+   of that digest are accepted. *)
+Theorem C06_created_headers_discriminate :
+  let d := {| d_media := s "application/octet-stream"; d_digest := ex_digest; d_size := 0; d_artifact := [] |} in
+  let other := s "sha256:0000000000000000000000000000000000000000000000000000000000000000" in
+  let tr := [ECall (PushManifest (s "foo") (s "latest") [] (s "application/octet-stream")) (Ok (VDesc d))] in
+  let resp l dg := mkresp 201 [(H_location, l); (H_dcd, dg)] [] None in
+  headers_ok ex_opts tr (resp (s "/v2/foo/manifests/" ++ ex_digest) ex_digest) = true
+  /\ headers_ok ex_opts tr (resp (s "/v2/foo/manifests/latest") ex_digest) = false
+  /\ headers_ok ex_opts tr (resp (s "/v2/foo/blobs/" ++ ex_digest) ex_digest) = false
+  /\ headers_ok ex_opts tr (resp (s "/v2/foo/manifests/" ++ ex_digest) other) = false.
+Proof. exact created_headers_discriminate. Qed.
+Print Assumptions C06_created_headers_discriminate.
 
 (* 4. backend_args_valid: every repository, from-repository, tag and digest handed to the
    backend (and to BlobWriter.Commit) satisfies the reference grammar. *)
